@@ -7,8 +7,13 @@ mod tstr {
     verus! {
     /// `str::trim`: the input without leading and trailing Unicode whitespace.
     pub uninterp spec fn trim_spec(s: Seq<char>) -> Seq<char>;
-    /// number of *bytes* `str::trim` / `trim_start` remove at the front (column arithmetic)
+    /// number of *bytes* `str::trim` removes at the front (column arithmetic)
     pub uninterp spec fn trim_lead(s: Seq<char>) -> nat;
+    /// ... and the front offsets of `trim_start` / `trim_ascii`: functions of their own (on an all-whitespace
+    /// string `trim` returns the empty slice at offset 0, `trim_start` and `trim_ascii` at offset len; found by
+    /// the conformance harness T.strings)
+    pub uninterp spec fn trim_start_lead(s: Seq<char>) -> nat;
+    pub uninterp spec fn trim_ascii_lead(s: Seq<char>) -> nat;
     /// UTF-8 length in bytes of a string view
     pub uninterp spec fn blen(s: Seq<char>) -> nat;
     /// `str::lines`: split at '\n', one trailing '\r' removed per line, no final empty line.
